@@ -479,6 +479,7 @@ func inStopWait(g gdump.G) bool {
 //	R2 actor in StopBatchWriter→WaitGroup.Wait, no goroutine has runBatchWriter on its stack
 func (s *scen) finishWait() (ok bool) {
 	var w waiter
+	stopHung := false
 	for {
 		all := true
 		for _, a := range s.actors {
@@ -500,10 +501,16 @@ func (s *scen) finishWait() (ok bool) {
 				if !found {
 					continue
 				}
-				if inEnqueueSend(g) {
+				switch {
+				case inEnqueueSend(g):
 					a.hung, a.dump = fpEnqBlocked, g.Raw
-				} else if inStopWait(g) {
+				case inStopWait(g):
 					a.hung, a.dump = fpStopBlocked, g.Raw
+					stopHung = true
+				case stopHung && strings.HasPrefix(g.State, "sync.Mutex.Lock") && g.Has("kvstore.(*BatchedWriter).StopBatchWriter"):
+					// a second Stop queued on startStopMutex behind a Stop that rule R2 decided: it
+					// waits for ever as a consequence, no finding of its own
+					a.hung = "behind-blocked-stop"
 				}
 			}
 		}
@@ -917,22 +924,26 @@ func runEnqStop(c *vf.Ctx, cs *caseRec) ([]string, bool) {
 	cur.Store(s)
 	defer cur.Store(nil)
 	rng := rand.New(rand.NewSource(cs.CaseSeed))
-	mainA := s.self("main")
+	s.self("main")
 	variant := rng.Intn(4)
-	for i := 0; i < cs.InFlight; i++ {
-		s.enqueue(mainA, s.objs[i])
-	}
-	switch variant { // jitter between the last Enqueue and Stop
-	case 1:
-		for i := rng.Intn(8) + 1; i > 0; i-- {
-			runtime.Gosched()
+	// Enqueue(s) and Stop are issued back to back by one goroutine (not the polling main goroutine,
+	// so that a Stop that never returns is decided by rule R2)
+	s.spawn("enqueue-then-stop", 0, nil, func(mainA *actor) {
+		for i := 0; i < cs.InFlight; i++ {
+			s.enqueue(mainA, s.objs[i])
 		}
-	case 2:
-		time.Sleep(time.Duration(rng.Intn(200)) * time.Microsecond)
-	case 3:
-		time.Sleep(time.Duration(cs.TimeoutUs) * time.Microsecond * time.Duration(rng.Intn(20)) / 10)
-	}
-	s.stop(mainA)
+		switch variant { // jitter between the last Enqueue and Stop
+		case 1:
+			for i := rng.Intn(8) + 1; i > 0; i-- {
+				runtime.Gosched()
+			}
+		case 2:
+			time.Sleep(time.Duration(rng.Intn(200)) * time.Microsecond)
+		case 3:
+			time.Sleep(time.Duration(cs.TimeoutUs) * time.Microsecond * time.Duration(rng.Intn(20)) / 10)
+		}
+		s.stop(mainA)
+	})
 	if !s.finishWait() {
 		return nil, false
 	}
@@ -1126,7 +1137,7 @@ func runShard(c *vf.Ctx, mode string, cases []caseRec, raceBuild bool, timeout t
 	var last caseRec
 	json.Unmarshal([]byte(res.LastMark), &last)
 	switch {
-	case res.TimedOut:
+	case res.TimedOut || res.Deadlock:
 		// watchdog: decided only if a permanence rule matches the SIGQUIT dump
 		gs := gdump.Parse(res.Stderr)
 		if len(gs) > 0 && !writerAlive(gs) {
@@ -1143,7 +1154,7 @@ func runShard(c *vf.Ctx, mode string, cases []caseRec, raceBuild bool, timeout t
 				}
 			}
 		}
-		c.Inconclusive(fmt.Sprintf("watchdog fired for child %s (last case %s), no permanence rule matched; stderr %s", mode, last.name(), res.StderrPath))
+		c.Inconclusive(fmt.Sprintf("watchdog fired (or runtime dead-lock report: %v) for child %s (last case %s), no permanence rule matched; stderr %s", res.Deadlock, mode, last.name(), res.StderrPath))
 	case raceBuild && res.ExitCode == 66 && len(res.Races) > 0 && res.Fatal == "":
 		// the race runtime's exit status after it printed reports; the child itself completed
 	case res.ExitCode != 0:
